@@ -23,38 +23,38 @@
 From Coq Require Import ZArith List Bool PeanoNat.
 From FT Require Import Model.Base Model.C08Split.
 Import ListNotations.
-Local Open Scope nat_scope.
+Local Open Scope N_scope.
 
 Definition coord := list Z.      (* an int coordinate c is [c]; a tuple is the list *)
 
 (* the objects hanging off a Fiber besides its payloads: its private RankAttrs object, the
    default object stored in it (a Payload box or a Fiber instance; a class is no object),
    and the Rank it reports as owner *)
-Record aux := { a_attrs : nat; a_def : option nat; a_own : option nat }.
+Record aux := { a_attrs : N; a_def : option N; a_own : option N }.
 
 Inductive lt :=
-| LB (b : nat) (v : Z)                                  (* Payload box b holding v *)
-| LF (f : nat) (a : aux) (es : list (coord * lt)).      (* Fiber object f *)
+| LB (b : N) (v : Z)                                  (* Payload box b holding v *)
+| LF (f : N) (a : aux) (es : list (coord * lt)).      (* Fiber object f *)
 
 Definition les := list (coord * lt).
 
-Definition olab (o : option nat) : list nat := match o with Some x => [x] | None => [] end.
-Definition aux_labels (a : aux) : list nat := a_attrs a :: olab (a_def a) ++ olab (a_own a).
+Definition olab (o : option N) : list N := match o with Some x => [x] | None => [] end.
+Definition aux_labels (a : aux) : list N := a_attrs a :: olab (a_def a) ++ olab (a_own a).
 
 (* all labels, in the visiting order of the harness snapshot (fiber, attrs, default, owner,
    then the elements left to right) *)
-Fixpoint labels (t : lt) : list nat :=
+Fixpoint labels (t : lt) : list N :=
   match t with
   | LB b _ => [b]
   | LF f a es => f :: aux_labels a ++ flat_map (fun ct => labels (snd ct)) es
   end.
-Definition labels_es (es : les) : list nat := flat_map (fun ct => labels (snd ct)) es.
+Definition labels_es (es : les) : list N := flat_map (fun ct => labels (snd ct)) es.
 
-Definition omap (r : nat -> nat) (o : option nat) : option nat :=
+Definition omap (r : N -> N) (o : option N) : option N :=
   match o with Some x => Some (r x) | None => None end.
-Definition map_aux (r : nat -> nat) (a : aux) : aux :=
+Definition map_aux (r : N -> N) (a : aux) : aux :=
   {| a_attrs := r (a_attrs a); a_def := omap r (a_def a); a_own := omap r (a_own a) |}.
-Fixpoint map_labels (r : nat -> nat) (t : lt) : lt :=
+Fixpoint map_labels (r : N -> N) (t : lt) : lt :=
   match t with
   | LB b v => LB (r b) v
   | LF f a es => LF (r f) (map_aux r a) (map (fun ct => (fst ct, map_labels r (snd ct))) es)
@@ -69,28 +69,28 @@ Fixpoint erase (t : lt) : et :=
   end.
 
 (* ---- ranks and tensors *)
-Record rk := { r_lab : nat; r_attrs : nat; r_def : option nat; r_fibers : list nat }.
+Record rk := { r_lab : N; r_attrs : N; r_def : option N; r_fibers : list N }.
 Record snapshot := { s_tree : lt; s_ranks : list rk }.      (* a fiber: s_ranks = [] *)
 
-Definition rk_labels (r : rk) : list nat := r_lab r :: r_attrs r :: olab (r_def r) ++ r_fibers r.
-Definition snap_labels (s : snapshot) : list nat :=
+Definition rk_labels (r : rk) : list N := r_lab r :: r_attrs r :: olab (r_def r) ++ r_fibers r.
+Definition snap_labels (s : snapshot) : list N :=
   labels (s_tree s) ++ flat_map rk_labels (s_ranks s).
-Definition map_rk (r : nat -> nat) (x : rk) : rk :=
+Definition map_rk (r : N -> N) (x : rk) : rk :=
   {| r_lab := r (r_lab x); r_attrs := r (r_attrs x); r_def := omap r (r_def x);
      r_fibers := map r (r_fibers x) |}.
-Definition map_snap (r : nat -> nat) (s : snapshot) : snapshot :=
+Definition map_snap (r : N -> N) (s : snapshot) : snapshot :=
   {| s_tree := map_labels r (s_tree s); s_ranks := map (map_rk r) (s_ranks s) |}.
 
 (* ---- copy.deepcopy: shift everything reachable by the counter *)
-Definition shift (n : nat) : lt -> lt := map_labels (fun l => n + l).
-Definition deepcopy (t : lt) (nx : nat) : lt * nat := (shift nx t, nx + nx).
-Definition deepcopy_snap (s : snapshot) (nx : nat) : snapshot * nat :=
+Definition shift (n : N) : lt -> lt := map_labels (fun l => n + l).
+Definition deepcopy (t : lt) (nx : N) : lt * N := (shift nx t, nx + nx).
+Definition deepcopy_snap (s : snapshot) (nx : N) : snapshot * N :=
   (map_snap (fun l => nx + l) s, nx + nx).
 
 (* ---- Fiber(coords, payloads, default=...) : a new fiber object with its own RankAttrs and,
    when the default is an object (Payload box / Fiber instance), that object; the payloads
    handed in are stored as they are (Payload.maybe_box keeps boxes and fibers, 232-235) *)
-Definition mk_fiber (nx : nat) (with_def : bool) (es : les) : lt * nat :=
+Definition mk_fiber (nx : N) (with_def : bool) (es : les) : lt * N :=
   (LF nx {| a_attrs := nx + 1; a_def := if with_def then Some (nx + 2) else None;
             a_own := None |} es, nx + 3).
 
@@ -105,7 +105,7 @@ Fixpoint l_empty (d : Z) (t : lt) : bool :=       (* Payload.isEmpty / Fiber.isE
 Definition present_l (d : Z) (es : les) : les := filter (fun ct => negb (l_empty d (snd ct))) es.
 
 (* ---- fibers at depth k, DFS pre-order (what _addFiber registers with rank k) *)
-Fixpoint fibs_at (k : nat) (t : lt) : list nat :=
+Fixpoint fibs_at (k : nat) (t : lt) : list N :=
   match t with
   | LB _ _ => []
   | LF f _ es => match k with
@@ -115,7 +115,7 @@ Fixpoint fibs_at (k : nat) (t : lt) : list nat :=
   end.
 
 (* Rank.append: fiber.setOwner(rank) for every fiber of the tree, by depth *)
-Fixpoint reown (rs : list nat) (t : lt) : lt :=
+Fixpoint reown (rs : list N) (t : lt) : lt :=
   match t with
   | LB _ _ => t
   | LF f a es =>
@@ -125,23 +125,23 @@ Fixpoint reown (rs : list nat) (t : lt) : lt :=
 
 (* Tensor.fromFiber(rank_ids, root): n new Rank objects (each with its RankAttrs; the leaf
    rank's default is a Payload box, interior defaults are the Fiber class), setRoot/_addFiber *)
-Definition new_rank (n nx : nat) (root : lt) (k : nat) : rk :=
-  {| r_lab := nx + 3 * k; r_attrs := nx + 3 * k + 1;
-     r_def := if Nat.eqb (S k) n then Some (nx + 3 * k + 2) else None;
+Definition new_rank (n : nat) (nx : N) (root : lt) (k : nat) : rk :=
+  {| r_lab := nx + 3 * N.of_nat k; r_attrs := nx + 3 * N.of_nat k + 1;
+     r_def := if Nat.eqb (S k) n then Some (nx + 3 * N.of_nat k + 2) else None;
      r_fibers := fibs_at k root |}.
-Definition from_fiber (n : nat) (root : lt) (nx : nat) : snapshot * nat :=
-  let root' := reown (map (fun k => nx + 3 * k) (seq 0 n)) root in
-  ({| s_tree := root'; s_ranks := map (new_rank n nx root') (seq 0 n) |}, nx + 3 * n).
+Definition from_fiber (n : nat) (root : lt) (nx : N) : snapshot * N :=
+  let root' := reown (map (fun k => nx + 3 * N.of_nat k) (seq 0%nat n)) root in
+  ({| s_tree := root'; s_ranks := map (new_rank n nx root') (seq 0%nat n) |}, nx + 3 * N.of_nat n).
 
 (* ---- building the operands from plain trees (Fiber(coords, payloads) per level) *)
 Inductive pt := PL (v : Z) | PN (es : list (coord * pt)).
 
-Fixpoint load (t : pt) (nx : nat) : lt * nat :=
+Fixpoint load (t : pt) (nx : N) : lt * N :=
   match t with
-  | PL v => (LB nx v, S nx)
+  | PL v => (LB nx v, nx + 1)
   | PN es =>
     let '(es', nx') :=
-      (fix go (l : list (coord * pt)) (n : nat) : les * nat :=
+      (fix go (l : list (coord * pt)) (n : N) : les * N :=
          match l with
          | [] => ([], n)
          | (c, t') :: l' =>
@@ -152,7 +152,7 @@ Fixpoint load (t : pt) (nx : nat) : lt * nat :=
     (LF nx {| a_attrs := nx + 1; a_def := Some (nx + 2); a_own := None |} es', nx')
   end.
 
-Definition load_snap (n : nat) (t : pt) (nx : nat) : snapshot * nat :=   (* n = 0: a fiber *)
+Definition load_snap (n : nat) (t : pt) (nx : N) : snapshot * N :=   (* n = 0: a fiber *)
   let '(r, nx1) := load t nx in
   match n with
   | O => ({| s_tree := r; s_ranks := [] |}, nx1)
@@ -162,15 +162,15 @@ Definition load_snap (n : nat) (t : pt) (nx : nat) : snapshot * nat :=   (* n = 
 (* =====================  in-place mutation, addressed by label  ===================== *)
 
 (* replace the element list of the fiber object f0 wherever it occurs *)
-Fixpoint upd_fiber (f0 : nat) (g : les -> les) (t : lt) : lt :=
+Fixpoint upd_fiber (f0 : N) (g : les -> les) (t : lt) : lt :=
   match t with
   | LB _ _ => t
   | LF f a es =>
     let es' := map (fun ct => (fst ct, upd_fiber f0 g (snd ct))) es in
-    LF f a (if Nat.eqb f f0 then g es' else es')
+    LF f a (if N.eqb f f0 then g es' else es')
   end.
 
-Definition mem (x : nat) (l : list nat) : bool := existsb (Nat.eqb x) l.
+Definition mem (x : N) (l : list N) : bool := existsb (N.eqb x) l.
 
 Fixpoint bump_last (k : Z) (c : coord) : coord :=
   match c with
@@ -181,23 +181,23 @@ Fixpoint bump_last (k : Z) (c : coord) : coord :=
 
 (* the follow-up mutation of the harness: every box in S gets +k, every fiber in S gets
    every coordinate shifted by 1000 *)
-Fixpoint mutate (S : list nat) (k : Z) (t : lt) : lt :=
+Fixpoint mutate (S : list N) (k : Z) (t : lt) : lt :=
   match t with
   | LB b v => LB b (if mem b S then (v + k)%Z else v)
   | LF f a es =>
     LF f a (map (fun ct => (if mem f S then bump_last 1000%Z (fst ct) else fst ct,
                             mutate S k (snd ct))) es)
   end.
-Definition mutate_rk (S : list nat) (r : rk) : rk :=
+Definition mutate_rk (S : list N) (r : rk) : rk :=
   {| r_lab := r_lab r; r_attrs := r_attrs r; r_def := r_def r;
      r_fibers := if mem (r_lab r) S
                  then r_fibers r ++ (match r_fibers r with x :: _ => [x] | [] => [] end)
                  else r_fibers r |}.
-Definition mutate_snap (S : list nat) (k : Z) (s : snapshot) : snapshot :=
+Definition mutate_snap (S : list N) (k : Z) (s : snapshot) : snapshot :=
   {| s_tree := mutate S k (s_tree s); s_ranks := map (mutate_rk S) (s_ranks s) |}.
 (* the objects the harness mutation touches on one side: its tree's fibers and boxes and its
    rank objects *)
-Definition side_labels (s : snapshot) : list nat := labels (s_tree s) ++ map r_lab (s_ranks s).
+Definition side_labels (s : snapshot) : list N := labels (s_tree s) ++ map r_lab (s_ranks s).
 
 (* =====================  fiber-level value-returning operations  ===================== *)
 
@@ -211,7 +211,7 @@ Fixpoint to_base (t : lt) : tree :=
   end.
 Definition tagged (es : les) : fib :=
   map (fun ict => (hd 0%Z (fst (snd ict)), Node [(Z.of_nat (fst ict), to_base (snd (snd ict)))]))
-      (combine (seq 0 (length es)) es).
+      (combine (seq 0%nat (length es)) es).
 Definition untag (dummy : lt) (es : les) (x : Z * tree) : coord * lt :=
   ([fst x], match snd x with
             | Node ((i, _) :: _) => nth (Z.to_nat i) (map snd es) dummy
@@ -219,8 +219,8 @@ Definition untag (dummy : lt) (es : les) (x : Z * tree) : coord * lt :=
             end).
 
 (* _splitFiber 3978-3986: one lower Fiber per partition, payload objects moved *)
-Fixpoint mk_lowers (dummy : lt) (es : les) (withd : bool) (ps : list part) (nx : nat)
-  : les * nat :=
+Fixpoint mk_lowers (dummy : lt) (es : les) (withd : bool) (ps : list part) (nx : N)
+  : les * N :=
   match ps with
   | [] => ([], nx)
   | p :: ps' =>
@@ -230,8 +230,8 @@ Fixpoint mk_lowers (dummy : lt) (es : les) (withd : bool) (ps : list part) (nx :
   end.
 
 (* _splitFiber on the (already copied) fiber t; None = the splitter raised *)
-Definition split_l (sp : sparams) (d : Z) (shape : option Z) (t : lt) (nx : nat)
-  : option (lt * nat) :=
+Definition split_l (sp : sparams) (d : Z) (shape : option Z) (t : lt) (nx : N)
+  : option (lt * N) :=
   match t with
   | LB _ _ => None
   | LF _ _ es =>
@@ -246,8 +246,8 @@ Definition split_l (sp : sparams) (d : Z) (shape : option Z) (t : lt) (nx : nat)
   end.
 
 (* Fiber._splitGeneric(depth=0) 3933-3936 *)
-Definition f_split (sp : sparams) (d : Z) (shape : option Z) (t : lt) (nx : nat)
-  : option (lt * nat) :=
+Definition f_split (sp : sparams) (d : Z) (shape : option Z) (t : lt) (nx : N)
+  : option (lt * N) :=
   let '(c, n1) := deepcopy t nx in split_l sp d shape c n1.
 
 Definition es_of (t : lt) : les := match t with LF _ _ es => es | LB _ _ => [] end.
@@ -269,7 +269,7 @@ Definition flat_withd (n : nat) (es : les) : bool :=
          end
   | _ => Nat.eqb n 2 || match es with [] => true | _ => false end   (* owned: the next rank's *)
   end.
-Definition flatten_l (withd : bool) (d : Z) (t : lt) (nx : nat) : option (lt * nat) :=
+Definition flatten_l (withd : bool) (d : Z) (t : lt) (nx : N) : option (lt * N) :=
   match t with
   | LB _ _ => None
   | LF _ _ es =>
@@ -278,7 +278,7 @@ Definition flatten_l (withd : bool) (d : Z) (t : lt) (nx : nat) : option (lt * n
     else None                                              (* PayloadError 4307-4308 *)
   end.
 (* mergeRanks 4248-4251 *)
-Definition f_flatten (n : nat) (d : Z) (t : lt) (nx : nat) : option (lt * nat) :=
+Definition f_flatten (n : nat) (d : Z) (t : lt) (nx : N) : option (lt * N) :=
   let '(c, n1) := deepcopy t nx in
   flatten_l (flat_withd n (es_of c)) d c n1.
 
@@ -297,7 +297,7 @@ Fixpoint unflat_groups (es : les) (cur : option (Z * les)) : list (Z * les) :=
       else unflat_groups es' (Some (cl, g ++ [(c0, p)]))
     end
   end.
-Fixpoint mk_groups (withd : bool) (gs : list (Z * les)) (nx : nat) : les * nat :=
+Fixpoint mk_groups (withd : bool) (gs : list (Z * les)) (nx : N) : les * N :=
   match gs with
   | [] => ([], nx)
   | (c1, g) :: gs' =>
@@ -306,14 +306,14 @@ Fixpoint mk_groups (withd : bool) (gs : list (Z * les)) (nx : nat) : les * nat :
     (([c1], lf) :: rest, n2)
   end.
 (* the body of unflattenRanks on the fiber t itself (payload objects of t are moved) *)
-Definition unflatten_l (t : lt) (nx : nat) : option (lt * nat) :=
+Definition unflatten_l (t : lt) (nx : N) : option (lt * N) :=
   match t with
   | LB _ _ => None
   | LF _ _ es =>
     match es with
     | [] => None                                           (* self.coords[0]: IndexError *)
     | _ =>
-      if forallb (fun ct => Nat.leb 2 (length (fst ct))) es then
+      if forallb (fun ct => Nat.leb 2%nat (length (fst ct))) es then
         let '(lows, n1) := mk_groups (leaf_level es) (unflat_groups es None) nx in
         Some (mk_fiber n1 true lows)                       (* _newFiber(default=Fiber()) *)
       else None
@@ -321,7 +321,7 @@ Definition unflatten_l (t : lt) (nx : nat) : option (lt * nat) :=
   end.
 (* with the proposed S17 fix the operand is deep-copied first; [fixed = false] is the pinned
    code, which builds the result from the operand's own payload objects *)
-Definition f_unflatten (fixed : bool) (t : lt) (nx : nat) : option (lt * nat) :=
+Definition f_unflatten (fixed : bool) (t : lt) (nx : N) : option (lt * N) :=
   if fixed then let '(c, n1) := deepcopy t nx in unflatten_l c n1
   else unflatten_l t nx.
 
@@ -340,7 +340,7 @@ Fixpoint ins_c (x : coord * lt) (l : les) : les :=
   end.
 Definition sort_c (l : les) : les := fold_right ins_c [] l.
 
-Definition f_swap (fixed : bool) (n : nat) (d : Z) (t : lt) (nx : nat) : option (lt * nat) :=
+Definition f_swap (fixed : bool) (n : nat) (d : Z) (t : lt) (nx : N) : option (lt * N) :=
   match f_flatten n d t nx with
   | None => None
   | Some (LF _ _ fes, n1) =>
@@ -361,10 +361,10 @@ Definition ne_vals (d : Z) (es : les) : list (Z * Z) :=
   filter (fun cv => negb (Z.eqb (snd cv) d)) (stored_vals es).
 Fixpoint zlookup (d c : Z) (l : list (Z * Z)) : Z :=
   match l with [] => d | (c', v) :: l' => if Z.eqb c c' then v else zlookup d c l' end.
-Definition fresh_boxes (nx : nat) (vals : list (Z * Z)) : les :=
-  map (fun ix => ([fst (snd ix)], LB (nx + fst ix) (snd (snd ix)))) (combine (seq 0 (length vals)) vals).
-Definition new_leaf_fiber (vals : list (Z * Z)) (nx : nat) : lt * nat :=
-  let '(f, n1) := mk_fiber nx true (fresh_boxes (nx + 3) vals) in (f, n1 + length vals).
+Definition fresh_boxes (nx : N) (vals : list (Z * Z)) : les :=
+  map (fun ix => ([fst (snd ix)], LB (nx + N.of_nat (fst ix)) (snd (snd ix)))) (combine (seq 0%nat (length vals)) vals).
+Definition new_leaf_fiber (vals : list (Z * Z)) (nx : N) : lt * N :=
+  let '(f, n1) := mk_fiber nx true (fresh_boxes (nx + 3) vals) in (f, n1 + N.of_nat (length vals)).
 
 (* two-finger union / intersection of coordinate-sorted (coordinate, value) lists *)
 Fixpoint merge2 (fuel : nat) (isect : bool) (f : Z -> Z -> Z) (d : Z) (a b : list (Z * Z))
@@ -389,12 +389,12 @@ Definition max_coord1 (es : les) : Z :=
 Inductive arith := AddS (k : Z) | MulS (k : Z) | AddF | MulF.
 
 (* __add__ 3117-3126 / __mul__ 3256-3265 on leaf-level fibers with default 0 *)
-Definition f_arith (op : arith) (a b : lt) (nx : nat) : lt * nat :=
+Definition f_arith (op : arith) (a b : lt) (nx : N) : lt * N :=
   let ea := es_of a in let eb := es_of b in
   match op with
   | AddS k =>        (* iterShape(): every coordinate below the estimated shape *)
     new_leaf_fiber (map (fun c => (c, (k + zlookup 0%Z c (stored_vals ea))%Z))
-                        (map Z.of_nat (seq 0 (Z.to_nat (max_coord1 ea))))) nx
+                        (map Z.of_nat (seq 0%nat (Z.to_nat (max_coord1 ea))))) nx
   | MulS k => new_leaf_fiber (map (fun cv => (fst cv, (k * snd cv)%Z)) (ne_vals 0%Z ea)) nx
   | AddF => new_leaf_fiber (merge2 (length ea + length eb + 1) false Z.add 0%Z
                                    (ne_vals 0%Z ea) (ne_vals 0%Z eb)) nx
@@ -414,43 +414,43 @@ Inductive vop :=
 | VUpdCoords (k : Z)                      (* tensor.updateCoords(c -> c + k) *)
 | VUpdPayloads (k : Z).                   (* tensor.updatePayloads(p -> p + k, depth = leaf) *)
 
-Record vres := { v_ops : list snapshot; v_res : snapshot; v_nx : nat }.
+Record vres := { v_ops : list snapshot; v_res : snapshot; v_nx : N }.
 
 Definition fiber_snap (t : lt) : snapshot := {| s_tree := t; s_ranks := [] |}.
 
 (* updatePayloads at one leaf-level fiber 2592-2596: each non-empty payload slot is assigned
    func(i, c, p) = p + k, a NEW box *)
-Definition upd_pay_es (d k : Z) (base : nat) (es : les) : les :=
+Definition upd_pay_es (d k : Z) (base : N) (es : les) : les :=
   map (fun ict => match snd (snd ict) with
                   | LB b v => if Z.eqb v d then snd ict
-                              else (fst (snd ict), LB (base + fst ict) (v + k)%Z)
+                              else (fst (snd ict), LB (base + N.of_nat (fst ict)) (v + k)%Z)
                   | LF _ _ _ => snd ict
-                  end) (combine (seq 0 (length es)) es).
-Definition es_len_of (f0 : nat) (t : lt) : nat :=
+                  end) (combine (seq 0%nat (length es)) es).
+Definition es_len_of (f0 : N) (t : lt) : nat :=
   (fix go (t : lt) : nat :=
      match t with
-     | LB _ _ => 0
-     | LF f _ es => if Nat.eqb f f0 then length es
-                    else fold_right (fun ct acc => Nat.max (go (snd ct)) acc) 0 es
+     | LB _ _ => 0%nat
+     | LF f _ es => if N.eqb f f0 then length es
+                    else fold_right (fun ct acc => Nat.max (go (snd ct)) acc) 0%nat es
      end) t.
 (* the in-place updates of the fibers [fs] of the copy, applied to EVERY tree of the world *)
-Fixpoint upd_pay_world (d k : Z) (fs : list nat) (w : list lt) (nx : nat) : list lt * nat :=
+Fixpoint upd_pay_world (d k : Z) (fs : list N) (w : list lt) (nx : N) : list lt * N :=
   match fs with
   | [] => (w, nx)
   | f :: fs' =>
-    let len := fold_right (fun t acc => Nat.max (es_len_of f t) acc) 0 w in
-    upd_pay_world d k fs' (map (upd_fiber f (upd_pay_es d k nx)) w) (nx + len)
+    let len := fold_right (fun t acc => Nat.max (es_len_of f t) acc) 0%nat w in
+    upd_pay_world d k fs' (map (upd_fiber f (upd_pay_es d k nx)) w) (nx + N.of_nat len)
   end.
 
 (* [fixed]: with the proposed S17 fix.  n = number of ranks of the operand tensor, 0 = the
    operands are unowned fibers.  None = the operation raises. *)
-Definition run_vop (fixed : bool) (d : Z) (n : nat) (o : vop) (ops : list snapshot) (nx : nat)
+Definition run_vop (fixed : bool) (d : Z) (n : nat) (o : vop) (ops : list snapshot) (nx : N)
   : option vres :=
   match ops with
   | [] => None
   | s :: rest =>
     let t := s_tree s in
-    let fiber_res (r : option (lt * nat)) : option vres :=
+    let fiber_res (r : option (lt * N)) : option vres :=
       match r with
       | None => None
       | Some (t', n') =>
@@ -461,7 +461,7 @@ Definition run_vop (fixed : bool) (d : Z) (n : nat) (o : vop) (ops : list snapsh
       end in
     (* tensor-level wrappers: Fiber operation on the root (which deep-copies it), then
        Tensor.fromFiber with m ranks *)
-    let tensor_res (m : nat) (r : option (lt * nat)) : option vres :=
+    let tensor_res (m : nat) (r : option (lt * N)) : option vres :=
       match r with
       | None => None
       | Some (t', n') => let '(s', n'') := from_fiber m t' n' in
@@ -531,21 +531,21 @@ Definition run_vop (fixed : bool) (d : Z) (n : nat) (o : vop) (ops : list snapsh
    fiber of rank lvl of a tensor with n ranks: an interior default is a new Fiber(); with
    addtorank it is appended to the next rank's fiber list, otherwise it only gets its owner
    set.  A leaf default is a new box. *)
-Fixpoint app_rank (k : nat) (id : nat) (rs : list rk) : list rk :=
+Fixpoint app_rank (k : nat) (id : N) (rs : list rk) : list rk :=
   match rs, k with
   | [], _ => []
   | r :: rs', O => {| r_lab := r_lab r; r_attrs := r_attrs r; r_def := r_def r;
                       r_fibers := r_fibers r ++ [id] |} :: rs'
   | r :: rs', S k' => r :: app_rank k' id rs'
   end.
-Definition create_default (addtorank : bool) (lvl : nat) (s : snapshot) (nx : nat)
-  : snapshot * nat :=
+Definition create_default (addtorank : bool) (lvl : nat) (s : snapshot) (nx : N)
+  : snapshot * N :=
   if Nat.ltb (S lvl) (length (s_ranks s)) then
     ({| s_tree := s_tree s;
         s_ranks := if addtorank then app_rank (S lvl) nx (s_ranks s) else s_ranks s |}, nx + 3)
-  else (s, S nx).
+  else (s, nx + 1).
 
-Definition pair_st := (snapshot * snapshot * nat)%type.
+Definition pair_st := (snapshot * snapshot * N)%type.
 Definition create_on (addtorank : bool) (side_b : bool) (lvl : nat) (st : pair_st) : pair_st :=
   let '(a, b, nx) := st in
   if side_b then let '(b', n') := create_default addtorank lvl b nx in (a, b', n')
@@ -617,14 +617,15 @@ Fixpoint eq_walk (fuel : nat) (addtorank : bool) (d : Z) (todo : list (nat * les
 
 Fixpoint lsize (t : lt) : nat :=
   match t with
-  | LB _ _ => 1
-  | LF _ _ es => S (fold_right (fun ct acc => lsize (snd ct) + acc) 0 es)
+  | LB _ _ => 1%nat
+  | LF _ _ es => S (fold_right (fun ct acc => (lsize (snd ct) + acc)%nat) 0%nat es)
   end.
 
 Inductive robs :=
 | RGet (pt : list Z)      (* a.getPayload( *pt ) *)
 | RUnion                  (* for _ in a.root | b.root  (and ^) *)
 | REq                     (* a == b *)
+| RIterUnc (shape : nat)  (* for _ in a.root.iterUncompressed(): every coordinate below the shape *)
 | RExternal.              (* isEmpty, countValues, shape queries, iteration, &, -, printing,
                              YAML dump, footprints, rendering: no write in the model *)
 
@@ -632,8 +633,13 @@ Definition observe (addtorank : bool) (d : Z) (o : robs) (st : pair_st) : pair_s
   let '(a, b, nx) := st in
   match o with
   | RGet pt => get_walk false O pt (es_of (s_tree a)) st      (* getPayload passes addtorank=False *)
-  | RUnion => union_walk (length (es_of (s_tree a)) + length (es_of (s_tree b)) + 1) addtorank O
+  | RUnion => union_walk (length (es_of (s_tree a)) + length (es_of (s_tree b)) + 1)%nat addtorank O
                          (pcoords d (es_of (s_tree a))) (pcoords d (es_of (s_tree b))) st
-  | REq => snd (eq_walk (2 * (lsize (s_tree a) + lsize (s_tree b)) + 2) addtorank d [(O, present_l d (es_of (s_tree a)), present_l d (es_of (s_tree b)))] st)
+  | REq => snd (eq_walk (2 * (lsize (s_tree a) + lsize (s_tree b)) + 2)%nat addtorank d [(O, present_l d (es_of (s_tree a)), present_l d (es_of (s_tree b)))] st)
+  | RIterUnc sh =>       (* fiber.py 609-626: an absent coordinate is answered by _createDefault(addtorank=False) *)
+    fold_left (fun st c => match lookup_c c (es_of (s_tree a)) with
+                           | Some _ => st
+                           | None => create_on false false O st
+                           end) (map Z.of_nat (seq 0%nat sh)) st
   | RExternal => st
   end.
